@@ -322,8 +322,8 @@ where
                 self.update_vring_registration(vring, index as u8)?;
                 #[cfg(feature = "verif-hooks")]
                 vhost::verif::hold("c.epoll", index as u64);
-            #[cfg(feature = "verif-hooks")]
-            vhost::verif::hold("c.epoll", index as u64);
+                #[cfg(feature = "verif-hooks")]
+                vhost::verif::hold("c.epoll", index as u64);
             }
         }
 
